@@ -347,12 +347,12 @@ theorem waitsUnder_optAct (P : Held → Prop) (h : Held) (p : Prop) [Decidable p
 theorem runEff_fail (c : Cfg) (t : Term) (k : Nat) (hf : c.failAt = some k) (hk : k < c.n) :
     runEff c t = (if capPipe c t then [Act.mk 0 true true] else []) ++
       ((List.range k).flatMap (stageOk c (att2 c t)) ++ stageFail c k) ++
-      (if capPipe c t then [Act.close ⟨0, .w⟩] else []) ++ dropVec c [] noneWaited k ++
-      (if capPipe c t then [Act.close ⟨0, .r⟩] else []) ++ [.ret false] := by
+      (if capPipe c t then [Act.close ⟨0, .w⟩] else []) ++
+      (if capPipe c t then [Act.close ⟨0, .r⟩] else []) ++ dropVec c [] noneWaited k ++ [.ret false] := by
   simp [runEff, startAll, hf, hk]
 
 theorem fail_held (c : Cfg) (t : Term) (k : Nat) (hf : c.failAt = some k) (hk : k < c.n) :
-    WaitsUnder (fun h => ∀ e, h e ≠ none → capPipe c t = true ∧ e = ⟨0, .r⟩) Held.empty (runEff c t) ∧
+    WaitsUnder (fun h => ∀ e, h e = none) Held.empty (runEff c t) ∧
     heldAfter Held.empty (runEff c t) = Held.empty := by
   rw [runEff_fail c t k hf hk]
   have hpre : heldAfter Held.empty (if capPipe c t then [Act.mk 0 true true] else []) = capHeld (capPipe c t) := by
@@ -372,33 +372,29 @@ theorem fail_held (c : Cfg) (t : Term) (k : Nat) (hf : c.failAt = some k) (hk : 
     · funext e; simp [heldFail, capHeld, capHeldR]
     · funext e; obtain ⟨p, s⟩ := e
       cases s <;> by_cases hp : p = 0 <;> by_cases hp1 : p = 1 <;> simp [heldFail, capHeld, capHeldR, heldAfter, stepHeld, hp, hp1] <;> omega
-  have h0p' : ∀ e : End, 1 ≤ e.pipe → capHeldR (capPipe c t) e = none := by
-    intro e he; obtain ⟨p, s⟩ := e; simp [capHeldR]; intro _ hp; simp at he; omega
-  have hP : (fun h : Held => ∀ e, h e ≠ none → capPipe c t = true ∧ e = ⟨0, .r⟩) (capHeldR (capPipe c t)) := by
-    intro e he; simp [capHeldR] at he; exact he
-  obtain ⟨hd1, hd2⟩ := dropVec_fail (fun h : Held => ∀ e, h e ≠ none → capPipe c t = true ∧ e = ⟨0, .r⟩) c
-    (capHeldR (capPipe c t)) noneWaited k hk h0p' hP k (Nat.le_refl k)
-  have hrelR : heldAfter (if k = 0 then heldFail c (capHeldR (capPipe c t)) k else capHeldR (capPipe c t))
-      (if capPipe c t then [Act.close ⟨0, .r⟩] else []) = Held.empty := by
-    have h1 : (if k = 0 then heldFail c (capHeldR (capPipe c t)) k else capHeldR (capPipe c t)) = capHeldR (capPipe c t) := by
-      split
-      · rename_i hk0; subst hk0; funext e; simp [heldFail]
-      · rfl
-    rw [h1]
+  have hrelR : heldAfter (heldFail c (capHeldR (capPipe c t)) k) (if capPipe c t then [Act.close ⟨0, .r⟩] else [])
+      = heldFail c Held.empty k := by
     cases hc : capPipe c t
-    · funext e; simp [capHeldR, Held.empty]
+    · funext e; simp [heldFail, capHeldR, Held.empty]
     · funext e; obtain ⟨p, s⟩ := e
-      cases s <;> by_cases hp : p = 0 <;> simp [capHeldR, Held.empty, heldAfter, stepHeld, hp]
+      cases s <;> by_cases hp : p = 0 <;> by_cases hp1 : p = 1 <;> simp [heldFail, capHeldR, Held.empty, heldAfter, stepHeld, hp, hp1] <;> omega
+  have h0p' : ∀ e : End, 1 ≤ e.pipe → Held.empty e = none := fun _ _ => rfl
+  have hP : (fun h : Held => ∀ e, h e = none) Held.empty := fun _ => rfl
+  obtain ⟨hd1, hd2⟩ := dropVec_fail (fun h : Held => ∀ e, h e = none) c Held.empty noneWaited k hk h0p' hP k (Nat.le_refl k)
+  have h1 : (if k = 0 then heldFail c Held.empty k else Held.empty) = Held.empty := by
+    split
+    · rename_i hk0; subst hk0; funext e; simp [heldFail, Held.empty]
+    · rfl
   constructor
-  · simp only [waitsUnder_append, heldAfter_append, hpre, hstages, hfail, hrelW, hd1, hrelR]
-    refine ⟨⟨⟨⟨⟨?_, ?_, ?_⟩, ?_⟩, hd2⟩, ?_⟩, ?_⟩
+  · simp only [waitsUnder_append, heldAfter_append, hpre, hstages, hfail, hrelW, hrelR, hd1, h1]
+    refine ⟨⟨⟨⟨⟨?_, ?_, ?_⟩, ?_⟩, ?_⟩, hd2⟩, ?_⟩
     · exact waitsUnder_optAct _ _ _ _ (by simp)
     · exact waitsUnder_noWait _ _ _ (noWait_flatMap _ _ (noWait_stageOk c _))
     · exact waitsUnder_noWait _ _ _ (noWait_stageFail c k)
     · exact waitsUnder_optAct _ _ _ _ (by simp)
     · exact waitsUnder_optAct _ _ _ _ (by simp)
     · simp [WaitsUnder]
-  · simp only [heldAfter_append, hpre, hstages, hfail, hrelW, hd1, hrelR]
+  · simp only [heldAfter_append, hpre, hstages, hfail, hrelW, hrelR, hd1, h1]
     rfl
 
 
@@ -669,7 +665,7 @@ theorem runEff_fail_clean (c : Cfg) (t : Term) (k : Nat) (hf : c.failAt = some k
   have nsD : NoSpawn (dropVec c [] noneWaited k) := noSpawn_of_spawnOf _ (spawnOf_dropVec c [] noneWaited k)
   simp only [spawnsClean_append, heldAfter_append, capHeld_pre]
   refine ⟨⟨⟨⟨⟨spawnsClean_optAct _ _ _ (by simp), ?_, spawnsClean_noSpawn _ _ nsF⟩, spawnsClean_optAct _ _ _ (by simp)⟩,
-    spawnsClean_noSpawn _ _ nsD⟩, spawnsClean_optAct _ _ _ (by simp)⟩, by simp [SpawnsClean]⟩
+    spawnsClean_optAct _ _ _ (by simp)⟩, spawnsClean_noSpawn _ _ nsD⟩, by simp [SpawnsClean]⟩
   exact stages_clean c (att2 c t) _ k (by omega) h0p h0e hclo (att2_errPipe c t)
 
 
